@@ -174,6 +174,12 @@ func (g *gen) chance(label string, pct int) bool {
 func (g *gen) literal(t string) string {
 	switch {
 	case isInt(t):
+		// narrow types: values at and near the ends of the range are common,
+		// so that arithmetic wraps and a value that silently lost its declared
+		// width prints something else
+		if b, ok := boundaryLiterals[t]; ok && g.chance("edge", 30) {
+			return rapid.SampledFrom(b).Draw(g.t, "edgelit")
+		}
 		max := 100
 		v := rapid.IntRange(0, max).Draw(g.t, "lit")
 		if v != 0 && !isUns(t) && g.chance("neg", 25) {
@@ -192,6 +198,15 @@ func (g *gen) literal(t string) string {
 		return rapid.SampledFrom([]string{"true", "false"}).Draw(g.t, "blit")
 	}
 	panic("literal " + t)
+}
+
+var boundaryLiterals = map[string][]string{
+	"int8":   {"127", "126", "-128", "-127", "64", "-65"},
+	"int16":  {"32767", "32766", "-32768", "30000", "-30000", "16384"},
+	"int32":  {"2147483647", "2147483646", "-2147483648", "2000000000", "-2000000000"},
+	"uint8":  {"255", "254", "200", "128", "250"},
+	"uint16": {"65535", "65534", "60000", "32768"},
+	"uint32": {"4294967295", "4294967294", "4000000000", "2147483648"},
 }
 
 // nonZeroLiteral for divisors.
@@ -414,7 +429,9 @@ func (g *gen) compoundOK(t string) (expr, bool) {
 }
 
 func (g *gen) lenExpr() (expr, bool) {
-	cands := g.vars(func(v variable) bool { return strings.HasPrefix(v.typ, "[]") || v.typ == "string" || strings.HasPrefix(v.typ, "map[") })
+	cands := g.vars(func(v variable) bool {
+		return strings.HasPrefix(v.typ, "[]") || v.typ == "string" || strings.HasPrefix(v.typ, "map[")
+	})
 	if len(cands) == 0 {
 		return expr{}, false
 	}
@@ -1331,7 +1348,7 @@ func (g *gen) genFunc() {
 		g.f("recover")
 		g.line("defer func() {")
 		g.line("\tif r := recover(); r != nil {")
-		g.line("\t\t"+`fmt.Printf("recovered %%v\n", r)`)
+		g.line("\t\t" + `fmt.Printf("recovered %%v\n", r)`)
 		g.line("\t\tres = %s", g.expr(f.results[0], 1).s)
 		g.line("\t}")
 		g.line("}()")
